@@ -162,6 +162,32 @@ def _lane_rule(prog: Program, res: Result, f: FuncInfo, method: str) -> None:
                 else:
                     res.ok("R3", f, r, f"{method}: delegates to apply_along_axes({one_d}, data, axis): per-lane / flattened by construction", key=key)
                 return
+    # (b0) a whole-array (cross-lane) condition may only guard element-wise, mask-selected updates
+    for g in [n for n in body_walk(f.node) if isinstance(n, ast.If)]:
+        t = g.test
+        if isinstance(t, ast.Call) and dotted(t.func) in ("np.any", "np.all", "any", "all") and not any(k.arg == "axis" for k in t.keywords) and t.args:
+            mask = norm(t.args[0])
+            keyg = f"lane:{method}:guard"
+            if dotted(t.func) in ("np.all", "all"):
+                res.bad("R3", f, g, f"{method}: a lane-wise correction is applied only when the condition holds for ALL lanes (`{norm(t)}`): a lane that "
+                        f"needs it is left uncorrected whenever another lane does not, so the result for one lane depends on the other lanes", key=keyg)
+                return
+            for st in g.body:
+                if isinstance(st, ast.Assign) and len(st.targets) == 1 and isinstance(st.targets[0], ast.Name):
+                    v = st.value
+                    tn = st.targets[0].id
+                    uses_mask = isinstance(v, ast.Call) and dotted(v.func) == "np.where" and len(v.args) == 3 and norm(v.args[0]) == mask and norm(v.args[2]) == tn
+                    feeds = any(isinstance(r.value, ast.AST) and tn in {n.id for n in ast.walk(r.value) if isinstance(n, ast.Name)}
+                                for r in body_walk(f.node) if isinstance(r, ast.Return) and r.value is not None)
+                    if feeds and not uses_mask:
+                        # helper values computed inside the guard are fine if they only flow into a masked select
+                        later = [s2 for s2 in g.body if isinstance(s2, ast.Assign) and isinstance(s2.value, ast.Call) and dotted(s2.value.func) == "np.where"
+                                 and tn in norm(s2.value.args[1] if len(s2.value.args) > 1 else s2.value)]
+                        if not later:
+                            res.bad("R3", f, st, f"{method}: under the cross-lane condition `{norm(t)}` the per-lane result `{tn}` is replaced wholesale "
+                                    f"(`{norm(st)[:80]}`) instead of np.where({mask}, new, {tn}): lanes that did not need the correction are changed too", key=keyg)
+                            return
+            res.ok("R3", f, g, f"{method}: the cross-lane test `{norm(t)}` only guards mask-selected (np.where) updates", key=keyg)
     # (b) axis-parameterised reductions only
     pos = _positional_uses(f, data)
     if pos:
@@ -224,4 +250,15 @@ MUTANTS = [
     {"id": "c15-zscore-scale-other-axis", "file": SF, "expect": "C15.R4",
      "old": "        else estimate_scale(data, scale_method, axis, keepdims=True)", "new": "        else estimate_scale(data, scale_method, None, keepdims=True)"},
 ]
-TWINS = []
+MUTANTS += [
+    {"id": "c15-mad-fallback-all-lanes", "file": SF, "expect": "C15.R3",
+     "old": "    is_zero_mad = np.isclose(mad, 0)\n    if np.any(is_zero_mad):\n        aad = np.mean(np.abs(data - loc), axis=axis, keepdims=True) / norm_aad\n        mad = np.where(is_zero_mad, aad, mad)\n",
+     "new": "    if np.all(np.isclose(mad, 0)):\n        mad = np.mean(np.abs(data - loc), axis=axis, keepdims=True) / norm_aad\n"},
+    {"id": "c15-mad-fallback-wholesale", "file": SF, "expect": "C15.R3",
+     "old": "        mad = np.where(is_zero_mad, aad, mad)\n", "new": "        mad = aad\n"},
+]
+TWINS = [
+    {"id": "c15-twin-mad-unconditional-where", "file": SF,
+     "old": "    if np.any(is_zero_mad):\n        aad = np.mean(np.abs(data - loc), axis=axis, keepdims=True) / norm_aad\n        mad = np.where(is_zero_mad, aad, mad)\n",
+     "new": "    aad = np.mean(np.abs(data - loc), axis=axis, keepdims=True) / norm_aad\n    mad = np.where(is_zero_mad, aad, mad)\n"},
+]
